@@ -47,6 +47,32 @@ static std::string crash_sig(const std::string &err, int status) {
     return "crash/" + kind + "/" + func;
 }
 
+// ---------------------------------------------------------------- one evaluation; in the valgrind build a memcheck report during the plan is a violation
+#ifdef COSIM_VALGRIND
+#include <valgrind/memcheck.h>
+#define TSCALE 40
+#else
+#define TSCALE 1
+#endif
+static std::string g_self = "/proc/self/exe";
+static Verdict run_scn(Scenario &sc, const Plan &p, Cov &cov, bool verbose) {
+#ifdef COSIM_VALGRIND
+    unsigned e0 = VALGRIND_COUNT_ERRORS;
+#endif
+    Verdict v = sc.run(p, cov, verbose);
+#ifdef COSIM_VALGRIND
+    unsigned e1 = VALGRIND_COUNT_ERRORS;
+    if (e1 > e0 && v.ok) v.fail(p.property + "/memcheck/error", std::to_string(e1 - e0) + " memcheck report(s) while executing this plan (replay under valgrind with the unsanitised build for the stack trace)", -1);
+#endif
+    return v;
+}
+// first frame of the first memcheck report: "==pid==    at 0x...: function (file:line)"
+static std::string memcheck_func(const std::string &err) {
+    size_t p = err.find("   at 0x"); if (p == std::string::npos) return "error";
+    size_t c = err.find(": ", p); if (c == std::string::npos) return "error"; size_t e = err.find_first_of(" \n", c + 2);
+    return err.substr(c + 2, e == std::string::npos ? std::string::npos : e - c - 2);
+}
+
 // ---------------------------------------------------------------- evaluate one plan in a forked child
 struct EvalResult { Verdict v; bool crashed = false; std::string err; };
 static std::string g_tmpdir;
@@ -57,19 +83,23 @@ static EvalResult eval_child(Scenario &sc, const Plan &p, bool verbose = false) 
     pid_t pid = fork();
     if (pid == 0) {
         close(fd[0]); int ef = open(errf.c_str(), O_WRONLY | O_CREAT | O_TRUNC, 0644); if (ef >= 0) { dup2(ef, 2); close(ef); }
-        signal(SIGALRM, on_alarm); alarm(3);
-        Cov cov; Verdict v = sc.run(p, cov, verbose);
+        signal(SIGALRM, on_alarm); alarm(3 * TSCALE);
+        Cov cov; Verdict v = run_scn(sc, p, cov, verbose);
         std::string out = std::string(v.ok ? "1" : "0") + "\n" + v.sig + "\n" + std::to_string(v.op) + "\n" + std::to_string(v.loghash) + "\n" + v.detail + "\n";
         (void)!write(fd[1], out.data(), out.size()); fflush(stdout); _exit(0);
     }
     close(fd[1]); std::string out; char buf[4096]; ssize_t n; while ((n = read(fd[0], buf, sizeof buf)) > 0) out.append(buf, (size_t)n); close(fd[0]);
     int st = 0; waitpid(pid, &st, 0);
     r.err = read_file(errf); unlink(errf.c_str());
+#ifdef COSIM_VALGRIND
+    if (const char *vl = getenv("COSIM_VGLOG")) { std::string f = std::string(vl) + "." + std::to_string(pid); r.err += read_file(f); unlink(f.c_str()); }   // valgrind --log-file=$COSIM_VGLOG.%p
+#endif
     if (!WIFEXITED(st) || WEXITSTATUS(st) != 0) { r.crashed = true; r.v.ok = false; r.v.sig = p.property + "/" + crash_sig(r.err, st); size_t q = r.err.find("ERROR:"); if (q == std::string::npos) q = r.err.find("runtime error"); r.v.detail = q == std::string::npos ? r.err.substr(0, 300) : r.err.substr(q, 420); return r; }
     size_t a = out.find('\n'), b = out.find('\n', a + 1), c = out.find('\n', b + 1), d = out.find('\n', c + 1);
     if (a == std::string::npos || d == std::string::npos) { r.v.fail("machinery/eval-output", out, -1); return r; }
     r.v.ok = out[0] == '1'; r.v.sig = out.substr(a + 1, b - a - 1); r.v.op = atoi(out.substr(b + 1, c - b - 1).c_str()); r.v.loghash = strtoull(out.substr(c + 1, d - c - 1).c_str(), nullptr, 10); r.v.detail = out.substr(d + 1);
     while (!r.v.detail.empty() && r.v.detail.back() == '\n') r.v.detail.pop_back();
+    if (!r.v.ok && r.v.sig == p.property + "/memcheck/error") { r.v.sig = p.property + "/memcheck/" + memcheck_func(r.err); r.v.detail += "\n" + r.err.substr(0, 900); }
     return r;
 }
 
@@ -158,7 +188,7 @@ static int cmd_replay(int argc, char **argv) {
     if (p.build != BUILD) { fprintf(stderr, "replay file is for build %s, this is build %s\n", p.build.c_str(), BUILD); return 2; }
     Scenario *sc = find_scn(p.scenario); if (!sc) { fprintf(stderr, "unknown scenario %s\n", p.scenario.c_str()); return 2; }
     Verdict v;
-    if (inproc) { signal(SIGALRM, on_alarm); alarm(20); Cov cov; v = sc->run(p, cov, verbose); }   // for gdb; sanitizer reports end the process
+    if (inproc) { signal(SIGALRM, on_alarm); alarm(20 * TSCALE); Cov cov; v = run_scn(*sc, p, cov, verbose); }   // for gdb; sanitizer reports end the process
     else { mkdir(outdir.c_str(), 0755); g_tmpdir = outdir; fflush(stdout); if (verbose) { Cov c; } EvalResult r = eval_child(*sc, p, verbose); v = r.v; }
     if (v.ok) { printf("REPLAY ok loghash=%llu\n", (unsigned long long)v.loghash); return 0; }
     printf("REPLAY VIOLATION property=%s sig=%s op=%d loghash=%llu\n  %s\n", p.property.c_str(), v.sig.c_str(), v.op, (unsigned long long)v.loghash, v.detail.substr(0, 900).c_str());
@@ -197,8 +227,8 @@ static int cmd_run(int argc, char **argv) {
                 std::vector<Plan> vs{p}; bool swept = false;
                 for (uint32_t vi = 0; vi < vs.size(); vi++) {
                     if (vi) { fprintf(pf, "V %llu %u\n", (unsigned long long)i, vi); fflush(pf); }
-                    alarm(5);
-                    Verdict v = sc->run(vs[vi], cov, false);
+                    alarm(5 * TSCALE);
+                    Verdict v = run_scn(*sc, vs[vi], cov, false);
                     alarm(0);
                     fprintf(pf, "R %llu %u %llu %llu %d %s\n", (unsigned long long)i, vi, (unsigned long long)plan_hash(vs[vi]), (unsigned long long)v.loghash, v.ok ? 1 : 0, v.ok ? "-" : v.sig.c_str());
                     if (!v.ok) break;                       // a failing base or clean plan is not swept
@@ -258,7 +288,7 @@ static int cmd_run(int argc, char **argv) {
             // a memory error may be classified differently in a worker with a long heap history (e.g. 'unknown-crash' vs
             // 'heap-buffer-overflow'): the fresh child is the reference, as long as it fails and does so reproducibly
             std::string sigUsed = kv.first;
-            if (!r1.v.ok && !r2.v.ok && r1.v.sig == r2.v.sig && r1.v.loghash == r2.v.loghash && r1.v.sig != kv.first && r1.crashed && kv.first.find("/crash/") != std::string::npos) { fprintf(stderr, "note: run %llu: worker reported %s, fresh process reproduces as %s\n", (unsigned long long)v.index, kv.first.c_str(), r1.v.sig.c_str()); sigUsed = r1.v.sig; }
+            if (!r1.v.ok && !r2.v.ok && r1.v.sig == r2.v.sig && r1.v.loghash == r2.v.loghash && r1.v.sig != kv.first && ((r1.crashed && kv.first.find("/crash/") != std::string::npos) || (kv.first.find("/memcheck/") != std::string::npos && r1.v.sig.find("/memcheck/") != std::string::npos))) { fprintf(stderr, "note: run %llu: worker reported %s, fresh process reproduces as %s\n", (unsigned long long)v.index, kv.first.c_str(), r1.v.sig.c_str()); sigUsed = r1.v.sig; }
             if (r1.v.ok || r2.v.ok || r1.v.sig != sigUsed || r2.v.sig != sigUsed || r1.v.loghash != r2.v.loghash) {
                 fprintf(stderr, "GATE FAILED: run %llu variant %u sig %s does not reproduce identically (r1 ok=%d sig=%s lh=%llu; r2 ok=%d sig=%s lh=%llu)\n", (unsigned long long)v.index, v.variant, kv.first.c_str(), r1.v.ok, r1.v.sig.c_str(), (unsigned long long)r1.v.loghash, r2.v.ok, r2.v.sig.c_str(), (unsigned long long)r2.v.loghash);
                 machinery++; continue;
@@ -269,7 +299,7 @@ static int cmd_run(int argc, char **argv) {
             replayPath = name; write_file(replayPath, plan_json(mini));
             // fresh-process replay gate
             fflush(stdout); pid_t pid = fork();
-            if (pid == 0) { int dn = open("/dev/null", O_WRONLY); dup2(dn, 1); dup2(dn, 2); execl("/proc/self/exe", "cosim", "replay", replayPath.c_str(), (char *)0); _exit(99); }
+            if (pid == 0) { int dn = open("/dev/null", O_WRONLY); dup2(dn, 1); dup2(dn, 2); execl(g_self.c_str(), "cosim", "replay", replayPath.c_str(), (char *)0); _exit(99); }
             int st = 0; waitpid(pid, &st, 0); bool reproduced = (WIFEXITED(st) && (WEXITSTATUS(st) == 1 || WEXITSTATUS(st) == 77 || WEXITSTATUS(st) == 78 || WEXITSTATUS(st) == 79)) || WIFSIGNALED(st);
             if (!reproduced) { fprintf(stderr, "GATE FAILED: minimised replay %s does not reproduce in a fresh process (status %d)\n", replayPath.c_str(), st); machinery++; continue; }
         }
@@ -309,6 +339,7 @@ static int cmd_gen(int argc, char **argv) {
 int main(int argc, char **argv) {
     if (argc < 2) { fprintf(stderr, "usage: cosim list | run <scenario> [--seed S --runs N --jobs J --tier T --out F] | replay <file> [--verbose] | gen <scenario> <seed> <index>\n"); return 2; }
     std::string c = argv[1];
+    { char self[4096]; ssize_t n = readlink("/proc/self/exe", self, sizeof self - 1); if (n > 0) { self[n] = 0; g_self = self; } }   // valgrind emulates the readlink, not the exec
     if (c == "list") { for (auto &s : registry()) printf("%s %s\n", s.property.c_str(), s.name.c_str()); return 0; }
     if (c == "replay") return cmd_replay(argc, argv);
     if (c == "run") return cmd_run(argc, argv);
